@@ -141,7 +141,7 @@ pub fn run(ctx: &Ctx) {
     let mons = Mons { c02: mon.contains("c02"), c03: mon.contains("c03"), c12: mon.contains("c12"), c17: mon.contains("c17") };
     let batch = ctx.get_u("batch", 1);
     let ncases = if ctx.n > 0 { ctx.n } else { 200 };
-    let pool = build_pool_ex(ctx.seed, ctx.get_u("nosynth", 0) == 1);
+    let pool = build_pool_full(ctx.seed, ctx.get_u("nosynth", 0) == 1, mons.c02 && !mons.c03);
     let images: Vec<Vec<u8>> = pool.targets.iter().map(|t| img(t.addr)).collect();
     let arena_image = bytes_at(pool.synth.arena.base, pool.synth.arena.len);
     // self-check of the pool before anything is patched
